@@ -17,6 +17,15 @@ var (
 	VerifDir = "/verif"
 )
 
+// OutDir: where evidence and replay files go (GVC_OUT overrides, used by the self-test so that runs on
+// mutated scratch copies do not overwrite the evidence of the real tree).
+func OutDir() string {
+	if d := os.Getenv("GVC_OUT"); d != "" {
+		return d
+	}
+	return VerifDir
+}
+
 func Main(args []string) int {
 	if len(args) == 0 {
 		fmt.Fprintln(os.Stderr, "usage: gvc <check|verify|dump|list|smt|replay|selftest> ...")
